@@ -211,6 +211,136 @@ theorem createPayment_refuses_duplicate {s : Store} {p q : Payment}
   have : s.has (keyPayment p.source p.ext) = true := (has_iff _ _).mpr ⟨_, hq⟩
   simp [this]
 
+/-- **An accepted payment creation adds one record and touches no other**: the key was free, it now
+holds the new payment, every other payment record and every order record is what it was (the
+checker's `create_overwrote_record` / `create_not_one_record` on the implementation's dumps). -/
+theorem createPayment_frame {s s' : Store} (hinv : IndexInv s) {p : Payment} (h : createPayment s p = some s') :
+    s.get (keyPayment p.source p.ext) = none ∧
+    s'.get (keyPayment p.source p.ext) = some (.payment p) ∧
+    (∀ src e, keyPayment src e ≠ keyPayment p.source p.ext →
+      s'.get (keyPayment src e) = s.get (keyPayment src e)) ∧
+    (∀ id, s'.get (keyOrder id) = s.get (keyOrder id)) := by
+  have hp := (indexInvF_iff.mp hinv).2
+  have ht := (pay_createPayment hp h).2
+  unfold createPayment at h
+  split_ifs at h with h1 h2
+  cases h
+  have hfree : s.get (keyPayment p.source p.ext) = none := by
+    rw [← has_false_iff]; simpa using h2
+  have hnone : getPaymentFromStore s p.source p.ext = none := by
+    unfold getPaymentFromStore; rw [hfree]
+  refine ⟨hfree, ?_, fun src e hne => ?_, fun id => ht.eq_of_head (head_keyOrder id) (by simp [payHeads])⟩
+  · rw [get_setPaymentInStore hp, if_pos rfl]
+  · rw [get_setPaymentInStore hp, if_neg hne, hnone]
+    have hk : keyPayment src e ∉ (paymentIndexEntries p).map (·.1) := by
+      intro hm
+      have := (mem_payKeys.mp hm).2
+      simp [keyPayment, idxTargetToPayment] at this
+    simp [hk]
+
+/-- non-vacuity, with the EMPTY external id (a valid id): the first creation is accepted, a second one
+by the same source is refused whatever its target and amounts, and the first payment stays. -/
+example :
+    let s := (run init [.pay ⟨[65], 3, [66], 0, []⟩]).kv
+    getPaymentFromStore s [65] [] = some ⟨[65], 3, [66], 0, []⟩ ∧
+    createPayment s ⟨[65], 1, [67], 2, []⟩ = none ∧
+    (run init [.pay ⟨[65], 3, [66], 0, []⟩, .pay ⟨[65], 1, [67], 2, []⟩]).kv = s := by decide
+
+/-- **An accepted order creation adds one record and touches no other**: the new id had no record,
+it now holds the new order, every other order record and every payment record is what it was. -/
+theorem createOrder_frame {s s' : Store} {o : Order} {id : UInt64} (hinv : IndexInv s) (hctr : CounterInv s)
+    (hb : (getLastOrderID s).toNat + 1 < 2 ^ 64) (h : createOrder s o = some (s', id)) :
+    s.get (keyOrder id) = none ∧
+    s'.get (keyOrder id) = some (.order { o with id := id }) ∧
+    (∀ id', id' ≠ id → s'.get (keyOrder id') = s.get (keyOrder id')) ∧
+    (∀ src e, s'.get (keyPayment src e) = s.get (keyPayment src e)) := by
+  have hid := (createOrder_spec hinv hctr hb h).2.2.1
+  unfold createOrder at h
+  split_ifs at h
+  simp only [nextOrderID] at h
+  split at h
+  · cases h
+  · next s2 hset =>
+    simp only [Option.some.injEq, Prod.mk.injEq] at h
+    obtain ⟨rfl, hidd⟩ := h
+    have hnid : (getLastOrderID s + 1).toNat = (getLastOrderID s).toNat + 1 := by
+      rw [UInt64.toNat_add]
+      have : (1 : UInt64).toNat = 1 := rfl
+      rw [this]; omega
+    have t1 : Touches s (s.set keyLastOrderID (.u64 (getLastOrderID s + 1))) [8] :=
+      Touches.set s _ _ head_keyLastOrderID
+    have hfree : s.get (keyOrder (getLastOrderID s + 1)) = none := by
+      cases hv : s.get (keyOrder (getLastOrderID s + 1)) with
+      | none => rfl
+      | some v => have := (hctr _ v hv).2; omega
+    have hnew : (s.set keyLastOrderID (.u64 (getLastOrderID s + 1))).get (keyOrder (getLastOrderID s + 1)) = none := by
+      rw [t1.eq_of_head (head_keyOrder _) (by simp)]; exact hfree
+    obtain ⟨_, hg⟩ := setOrderInStore_new (o := { o with id := getLastOrderID s + 1 }) hnew hset
+    have t2 := touches_setOrderInStore hset
+    subst hid
+    refine ⟨hfree, ?_, fun id' hne => ?_, fun src e => ?_⟩
+    · rw [hg, if_pos rfl]
+    · rw [hg, if_neg (by simpa using hne)]
+      cases hev : entryVal { o with id := getLastOrderID s + 1 } (keyOrder id') with
+      | some v' => exact absurd rfl (index_ne_keyOrder (isOrderIndexKey_of_mem (entryVal_some hev)) id')
+      | none => exact t1.eq_of_head (head_keyOrder _) (by simp)
+    · rw [t2.eq_of_head (head_keyPayment src e) (by simp [orderHeads]),
+        t1.eq_of_head (head_keyPayment src e) (by simp)]
+
+/-- **A creation carrying an external id that an open order of the market already has is refused**
+(the checker's `externalId_not_unique` on an accepted `ask` / `bid`). -/
+theorem createOrder_refuses_used_externalId {s : Store} (hinv : IndexInv s) (hctr : CounterInv s)
+    (hb : (getLastOrderID s).toNat + 1 < 2 ^ 64) {o o' : Order} {i : UInt64}
+    (ho' : s.get (keyOrder i) = some (.order o')) (hm : o'.market = o.market) (hx : o'.ext = o.ext)
+    (hne : o.ext ≠ []) : createOrder s o = none := by
+  cases hc : createOrder s o with
+  | none => rfl
+  | some r =>
+    obtain ⟨s', id⟩ := r
+    exfalso
+    obtain ⟨hfree, hrec, hoth, _⟩ := createOrder_frame hinv hctr hb hc
+    have hinv' := (createOrder_spec hinv hctr hb hc).1
+    have hii : i ≠ id := by
+      intro e; subst e; rw [hfree] at ho'; cases ho'
+    have ho'' : s'.get (keyOrder i) = some (.order o') := by rw [hoth i hii]; exact ho'
+    exact hii (externalId_unique_per_market hinv' ho'' hrec hm hx (hx ▸ hne))
+
+/-- **Only external ids within the length limit are accepted** (100 bytes, `MaxExternalIDLength`):
+by order creation, by an external-id change and by payment creation — and a lookup by an id of
+EXACTLY the limit is an ordinary lookup (`getOrderByExternalID_iff` has `x.length ≤ 100`). -/
+theorem accepted_externalId_within_limit {st st' : State} {res : Res} :
+    (∀ o, apply st (.create o) = some (st', res) → o.ext.length ≤ 100) ∧
+    (∀ m id x signer, apply st (.setExt m id x signer) = some (st', res) → x.length ≤ 100) ∧
+    (∀ p, apply st (.pay p) = some (st', res) → p.ext.length ≤ 100) := by
+  refine ⟨fun o h => ?_, fun m id x signer h => ?_, fun p h => ?_⟩
+  · simp only [apply, Option.map_eq_some_iff] at h
+    obtain ⟨⟨kv, i⟩, hc, _⟩ := h
+    unfold createOrder at hc
+    split_ifs at hc with hv
+    simp only [orderValid, Bool.and_eq_true, decide_eq_true_eq] at hv
+    exact hv.2
+  · simp only [apply, withKv, Option.map_eq_some_iff] at h
+    obtain ⟨kv, hc, _⟩ := h
+    unfold setOrderExternalID at hc
+    split_ifs at hc with hv
+    omega
+  · simp only [apply, withKv, Option.map_eq_some_iff] at h
+    obtain ⟨kv, hc, _⟩ := h
+    unfold createPayment at hc
+    split_ifs at hc with hv
+    simp only [paymentValid, Bool.and_eq_true, decide_eq_true_eq] at hv
+    exact hv.2
+
+/-- non-vacuity at the limit: an order whose external id has exactly 100 bytes is created, found by
+that id, and not found by the 99- and 101-byte ids. -/
+example :
+    let x100 := List.replicate 100 121
+    let s := (run init [.mkMarket 0 "m",
+      .create ⟨0, false, 1, [65], [97, 112, 112], 6, [117], 12, x100, true⟩]).kv
+    (getOrderByExternalID s 1 x100).map (·.id) = some 1 ∧
+    getOrderByExternalID s 1 (List.replicate 99 121) = none ∧
+    getOrderByExternalID s 1 (List.replicate 101 121) = none := by decide
+
 /-- **A payment is listed under its current target and under no other**: a target-index entry
 `(t, source, id)` exists iff the payment `(source, id)` is stored and has target `t`. -/
 theorem payment_listed_under_current_target_only {s : Store} (hinv : IndexInv s) (t src e : Bytes) :
